@@ -75,12 +75,46 @@ static int get_num(
   return 0;
 }
 
+// Pass 1 only: skip the rest of an address that can't be evaluated yet.
+// Inside ( ) or [ ] stop at the closing token (or at a ',') so the caller
+// still sees the addressing mode and counts the same bytes as pass 2.
+static void ignore_address(AsmContext *asm_context, char closer)
+{
+  char token[TOKENLEN];
+  int token_type;
+  int nested = 0;
+
+  if (closer == 0)
+  {
+    ignore_operand(asm_context);
+    return;
+  }
+
+  while (true)
+  {
+    token_type = tokens_get(asm_context, token, TOKENLEN);
+
+    if (token_type == TOKEN_EOL || token_type == TOKEN_EOF) { break; }
+
+    if (nested == 0 && (IS_TOKEN(token, ',') || IS_TOKEN(token, closer)))
+    {
+      break;
+    }
+
+    if (IS_TOKEN(token, '(')) { nested++; }
+    if (IS_TOKEN(token, ')') && nested > 0) { nested--; }
+  }
+
+  tokens_push(asm_context, token, token_type);
+}
+
 static int get_address(
   AsmContext *asm_context,
   char *token,
   int *token_type,
   int *num,
-  int *size)
+  int *size,
+  char closer = 0)
 {
   char modifier = 0;
   int worst_case = 0;
@@ -104,7 +138,7 @@ static int get_address(
   if (eval_expression(asm_context, num) != 0)
   {
     if (asm_context->pass == 1)
-      ignore_operand(asm_context);
+      ignore_address(asm_context, closer);
     else
       return -1;
 
@@ -305,7 +339,7 @@ int parse_instruction_6502(AsmContext *asm_context, char *instr)
       {
         if (GET_TOKEN() == TOKEN_EOL) { break; }
 
-        if (get_address(asm_context, token, &token_type, &num, &size) == -1)
+        if (get_address(asm_context, token, &token_type, &num, &size, ')') == -1)
         {
           return -1;
         }
